@@ -191,11 +191,9 @@ func opcodeAtomic(high byte, mid byte, low byte) opcode.Opcode {
 }
 
 func addrAddImm(a model.Addr, imm int32) model.Addr {
-	if imm >= 0 {
-		return a + model.Addr(imm)
-	} else {
-		return a - model.Addr(-imm)
-	}
+	// Conversion of a negative value wraps around, so the addition
+	// subtracts. Negation of imm would overflow for the minimal int32.
+	return a + model.Addr(int64(imm))
 }
 
 func immConst(t immType, i instruction) expr.Const {
